@@ -388,7 +388,7 @@ def run(F, rep):
             if t.get("indirect") or t["sp"].get("exp"):
                 continue
             c = t["callee"]
-            if not re.search(r"zstd(_safe)?::.*(compress\w*|encode_all|Encoder::.*new\w*)$", c) or c.endswith("compress_bound"):
+            if not re.search(r"zstd(_safe)?::.*(compress\w*|encode_all|Encoder::.*new\w*)$", c) or c.endswith("compress_bound") or re.search(r"::decompress\w*$", c):
                 continue
             exz = exz or Exprs(f)
             gz = gz or cfg_of(f)
